@@ -97,6 +97,15 @@ class Ctx:
     if sample is not None and nontrivial and len(self.samples) < MAX_SAMPLES:
       self.samples.append(sample)
 
+  def crumb(self, obj):
+    """Leave a breadcrumb (survives a native crash) when VERIF_CRUMBS=1."""
+    if os.environ.get("VERIF_CRUMBS") != "1":
+      return
+    d = os.path.join(VERIF, ".run", self.prop_id)
+    os.makedirs(d, exist_ok=True)
+    with open(os.path.join(d, "%d.crumb" % self.shard), "w") as f:
+      json.dump(obj, f, default=repr)
+
   def event(self, label, n=1):
     self.counters[label] += n
 
@@ -247,6 +256,57 @@ def _worker(args):
   return ctx.dump()
 
 
+def _shard_main(a, out_path):
+  r = _worker(a)
+  tmp = out_path + ".tmp"
+  with open(tmp, "w") as f:
+    json.dump(r, f, default=repr)
+  os.replace(tmp, out_path)
+
+
+def _run_shards(prop_id, args):
+  """One OS process per shard (a crash of one must not take the others)."""
+  mp = multiprocessing.get_context("fork")
+  run_dir = os.path.join(VERIF, ".run", prop_id)
+  os.makedirs(run_dir, exist_ok=True)
+  for f in os.listdir(run_dir):
+    if f.endswith(".json") or f.endswith(".crumb"):
+      os.unlink(os.path.join(run_dir, f))
+  procs = []
+  maxp = int(os.environ.get("VERIF_PROCS", os.cpu_count() or 16))
+  pending = list(args)
+  running = []
+  results, died = [], []
+
+  def reap(block):
+    for pr, a, out in list(running):
+      if block:
+        pr.join()
+      if pr.is_alive():
+        continue
+      running.remove((pr, a, out))
+      if os.path.exists(out):
+        with open(out) as f:
+          results.append(json.load(f))
+      else:
+        crumb = os.path.join(run_dir, "%d.crumb" % a[3])
+        died.append("shard %d died (exit code %s)%s" % (
+            a[3], pr.exitcode,
+            "; last breadcrumb: " + crumb if os.path.exists(crumb) else ""))
+
+  while pending or running:
+    while pending and len(running) < maxp:
+      a = pending.pop(0)
+      out = os.path.join(run_dir, "%d.json" % a[3])
+      pr = mp.Process(target=_shard_main, args=(a, out))
+      pr.start()
+      running.append((pr, a, out))
+    time.sleep(0.02)
+    reap(False)
+  results.sort(key=lambda r: r["shard"])
+  return results, died
+
+
 def _write_replay(prop_id, viol):
   d = os.path.join(VERIF, "replays", prop_id)
   os.makedirs(d, exist_ok=True)
@@ -292,18 +352,16 @@ def main(mod_name, tier, seed, nshards=None, replay_path=None):
   args = [(mod_name, tier, seed, s, nshards, known) for s in range(nshards)]
   results = []
   harness_errors = []
-  if nshards == 1:
+  only = os.environ.get("VERIF_ONLY_SHARD")
+  if only is not None:   # debugging aid: one shard, in-process
+    import faulthandler
+    faulthandler.enable()
+    results = [_worker(args[int(only)])]
+  elif nshards == 1:
     results = [_worker(args[0])]
   else:
-    mp = multiprocessing.get_context("fork")
-    with concurrent.futures.ProcessPoolExecutor(
-        max_workers=min(nshards, os.cpu_count() or 16), mp_context=mp) as ex:
-      futs = [ex.submit(_worker, a) for a in args]
-      for i, fu in enumerate(futs):
-        try:
-          results.append(fu.result())
-        except BaseException as e:  # pylint: disable=broad-except
-          harness_errors.append("shard %d died: %r" % (i, e))
+    results, died = _run_shards(prop_id, args)
+    harness_errors.extend(died)
   for r in results:
     if r.get("harness_error"):
       harness_errors.append("shard %d:\n%s" % (r["shard"], r["harness_error"]))
